@@ -104,7 +104,7 @@ def run_case(case):
 
 
 def strategy():
-    d = gen.desc_sized(alphabet="abcde ", max_runs=5, max_len=3, big_runs=24, big_len=60)
+    d = gen.desc_sized(alphabet="abcde 31m[", max_runs=5, max_len=3, big_runs=24, big_len=60)
     same = st.fixed_dictionaries({"desc": d, "same_text": st.tuples(st.integers(0, 12), st.integers(1, 4),
                                   st.one_of(st.none(), st.tuples(gen.atts(), gen.atts()).map(list))).map(list), "build": gen.BUILDS, "obs": gen.OBS})
     return st.one_of(
